@@ -366,6 +366,17 @@ def run_shard(spec, rec):
     import pint
 
     rng = random.Random(spec["seed"])
+    # The statement demands ValueError for ARITHMETIC and ORDERING across registries; it does not say
+    # what == returns.  A cross-registry == that answers True is observed and counted, not alarmed on
+    # (main-agent review: demanding False would be more than the property states).
+    _viol = rec.violation
+
+    def _violation(mech, wit, **f):
+        if mech == "cross-registry-eq-true":
+            rec.count("cross_registry_eq_true_observed")
+            return
+        _viol(mech, wit, **f)
+    rec.violation = _violation
     pools = Pools(R.default_model(pintload.REPO))
     kind = spec["kind"]
     if kind == "misc":
